@@ -29,6 +29,21 @@ func NewTableWriter(fs storage.FileSystem, id int64) *TableWriter {
 	return &TableWriter{fs: fs, id: atomicNum}
 }
 
+// ReserveTableIDs advances the next table ID past the IDs of all tables in the
+// given levels so that new tables never reuse (and overwrite) their files.
+func (c *TableWriter) ReserveTableIDs(levels *LevelList) {
+	for level := range levels.DescendLevels() {
+		for t := range level.AllTables() {
+			var id int64
+			if _, err := fmt.Sscanf(t.Name(), "%d.sst", &id); err != nil {
+				continue
+			}
+			for next := c.id.Load(); next <= id && !c.id.CompareAndSwap(next, id+1); next = c.id.Load() {
+			}
+		}
+	}
+}
+
 func (c *TableWriter) Write(entries iter.Seq[kv.Entry]) (*Table, error) {
 	reservedNum := c.id.Add(1) - 1
 	f := c.fs.New(fmt.Sprintf("%06d.sst", reservedNum))
